@@ -99,7 +99,7 @@ func validSched(s string) ([]string, bool) {
 }
 
 func waitArrived(id string) bool {
-	deadline := time.After(5 * time.Second)
+	deadline := time.After(2 * time.Second)
 	for {
 		select {
 		case got := <-gateArrived:
@@ -116,7 +116,7 @@ func runSched(acts []string) string {
 	cl := client.New().SetDial(dialer)
 	var obs []string
 	pendingResume := false // a worker is still parked after its caller returned
-	const grace = 40 * time.Millisecond
+	const grace = 20 * time.Millisecond
 	for i, act := range acts {
 		id := fmt.Sprintf("q%d", i)
 		// drain stale arrivals
@@ -177,7 +177,7 @@ func runSched(acts []string) string {
 			cancel()
 			select {
 			case res = <-done:
-			case <-time.After(5 * time.Second):
+			case <-time.After(2 * time.Second):
 				res = "Ehang"
 			}
 			if gate != nil {
@@ -188,7 +188,7 @@ func runSched(acts []string) string {
 			case <-hookParked:
 			case r := <-done:
 				res = r // completed without reaching the hook (should not happen)
-			case <-time.After(5 * time.Second):
+			case <-time.After(2 * time.Second):
 				res = "Enohook"
 			}
 			if res == "" {
@@ -225,6 +225,11 @@ func runStress(workers, perWorker, delayMs, timeoutMs int, w counter) string {
 		wg.Add(1)
 		go func(g int) {
 			defer wg.Done()
+			defer func() {
+				if recover() != nil {
+					bad.Add(1)
+				}
+			}()
 			for i := 0; i < perWorker; i++ {
 				id := fmt.Sprintf("w%d.%d", g, i)
 				to := timeoutMs
